@@ -159,6 +159,11 @@ func timeNS(v Value) *Term {
 
 func (r *Run) now(fr *frame) *Term {
 	r.nowCount++
+	if r.clockConcrete {
+		t := r.tt.Const(64, uint64(1700000000000000000+int64(r.nowCount)*1000))
+		r.lastNow = t
+		return t
+	}
 	t := r.freshBV("now", 64)
 	tt := r.tt
 	lo := tt.Const(64, 0)
